@@ -1,3 +1,4 @@
+pub mod der;
 pub mod sm2;
 pub mod sm3;
 pub mod sm9;
@@ -5,6 +6,7 @@ pub mod zuc;
 
 pub fn selftest() -> Result<(), String> {
     sm3::selftest()?;
+    der::selftest()?;
     sm2::selftest()?;
     zuc::selftest()?;
     sm9::selftest()?;
